@@ -325,7 +325,7 @@ func tnExecExpand(a []string) Result {
 		inFrag = inFrag && tnIdxOk(t.name)
 	}
 	for _, x := range aliases {
-		inFrag = inFrag && tnTblOk(x.alias)
+		inFrag = inFrag && tnIdxOk(x.alias) // since patch c20-14 AddAliases refuses an alias that is no valid index name
 		for _, t := range x.targets {
 			inFrag = inFrag && tnIdxOk(t)
 		}
@@ -795,7 +795,8 @@ var tnPool = []string{
 	"a b", "prod_logs", "LOGS", "a*b", "logs.2", "2024", "X", "metrics.cpu", "metrics-cpu",
 }
 
-var tnAliasPool = []string{"all", "al", "logs", "cur", "cur.logs", "logs-alias", "a.l", "shared", "back\\slash", "."}
+// (alias names that are no valid index names — ".", a name with a backslash — are refused by AddAliases since patch c20-14)
+var tnAliasPool = []string{"all", "al", "logs", "cur", "cur.logs", "logs-alias", "a.l", "shared", "b(a)ck+slash", ".a"}
 
 const tnAlphabet = "abclogsX012.-_*+?()[]|^$\\{},: "
 
